@@ -265,10 +265,12 @@ Definition check_sd (k : case_sd) : bool :=
 Inductive case :=
 | CLin (k : case_lin) | CKz (k : case_kz) | CPm (k : case_pm)
 | CPdhg (k : case_pdhg) | CAdmm (k : case_admm) | CPg (k : case_pg) | CFb (k : case_fb) | CDr (k : case_dr)
-| CLs (k : case_ls) | CLs2 (k : case_ls2) | CSd (k : case_sd).
+| CLs (k : case_ls) | CLs2 (k : case_ls2) | CSd (k : case_sd)
+| CRaised.   (* the implementation raised on a valid input: never agrees with the model *)
 Definition check (c : case) : bool :=
   match c with
   | CLin k => check_lin k | CKz k => check_kz k | CPm k => check_pm k
   | CPdhg k => check_pdhg k | CAdmm k => check_admm k | CPg k => check_pg k
   | CFb k => check_fb k | CDr k => check_dr k | CLs k => check_ls k | CLs2 k => check_ls2 k | CSd k => check_sd k
+  | CRaised => false
   end.
